@@ -769,7 +769,7 @@ def run_units(prop, units, tiers, log, only=None):
                 item_errs = [(k, msg) for (k, msg) in errs if (item_of_line(k) or ("",))[0] == item]
                 item_flagged = [x for x in flagged if obl_items.get(x) == item]
                 msgs = [f"line {k}: {msg}: {lines[k-1].strip()[:160]}" for (k, msg) in item_errs]
-                dmsgs = decisive_msgs + (("invariant not satisfied", "loop invariant not satisfied") if u.decisive_loops else ())
+                dmsgs = decisive_msgs + (("invariant not satisfied", "loop invariant not satisfied", "assertion failed", "decreases not satisfied") if u.decisive_loops else ())
                 decisive = (u.decisive_loops or not item_has_loop(item)) and item_errs and all(any(msg.startswith(d) for d in dmsgs) for (_k, msg) in item_errs)
                 if not decisive:
                     proof_lost.append(f"{o} ({item}): " + "; ".join(msgs)[:300])
